@@ -83,10 +83,27 @@ def lint_coq():
     """No axioms/admits/guard switches anywhere in the development."""
     bad = []
     pat = re.compile(r"\b(Admitted|admit|Axiom|Axioms|Parameter|Parameters|Conjecture|Hypothesis|Variable|Abort All|Unset Guard Checking|bypass_check|Admit Obligations|type-in-type|impredicative-set)\b")
+    def strip_comments(text):
+        """blank out (possibly nested, multi-line) comments, keeping line structure"""
+        out, i, lvl = [], 0, 0
+        while i < len(text):
+            two = text[i:i + 2]
+            if two == "(*":
+                lvl += 1
+                out.append("  ")
+                i += 2
+            elif two == "*)" and lvl > 0:
+                lvl -= 1
+                out.append("  ")
+                i += 2
+            else:
+                out.append(text[i] if lvl == 0 or text[i] == "\n" else " ")
+                i += 1
+        return "".join(out)
     for f in glob.glob(os.path.join(ROOT, "coq", "**", "*.v"), recursive=True):
         depth = 0
-        for n, line in enumerate(open(f, errors="replace"), 1):
-            code = re.sub(r"\(\*.*?\*\)", "", line)
+        raw_lines = open(f, errors="replace").read().split("\n")
+        for n, (code, line) in enumerate(zip(strip_comments("\n".join(raw_lines)).split("\n"), raw_lines), 1):
             if re.match(r"\s*Section\b", code):
                 depth += 1
             if re.match(r"\s*End\b", code) and depth > 0:
@@ -234,7 +251,7 @@ def match_known(sig, known, tool=None):
     for e in known:
         if e["status"] != "open":
             continue
-        if tool and e.get("tool") and e["tool"] != tool:
+        if tool and e.get("tool") and e["tool"] != tool and tool not in e.get("also_tools", []):
             continue     # signature namespaces are per search tool (xmloracle N02 is not htmloracle N02)
         for pat in e.get("signatures", []):
             if sig == pat or (pat.endswith("*") and sig.startswith(pat[:-1])):
